@@ -26,7 +26,8 @@ CHECKS = {
     technique='Coq proof (invariant by induction over operation sequences) + differential correspondence + position oracle'),
  'C03': dict(
     text='Theorems (Coq): e@k evaluates e with every trace at index+k and, in range, puts back exactly the saved positions (restore_puts_back) whatever e does to them; '
-         'out of range yields #f / error without moving; the whole evaluator leaves the index stack balanced (T-bal, induction over the evaluator). '
+         'out of range yields #f / error without moving; the whole evaluator leaves the index stack balanced (T-bal, induction over the evaluator); for a read-only e (T-ro fragment) '
+         'on one trace e@k is e at index i+k and the interpreter state afterwards is EXACTLY the state before. '
          'PARTIAL: the composition law (e@j)@k = e@(j+k) is decided by the differential check, not by a theorem.' + DIFF,
     technique='Coq proof (save/restore refinement, balanced-context induction) + differential correspondence + offset oracle'),
  'C04': dict(
